@@ -210,6 +210,8 @@ structure RState where
   curRNS : Option Vals := none
   lineNum : Nat := 0
   recordName : String := ""
+  /-- `r.File.Header == NewFileHeader()`: no file header line has been parsed into it -/
+  headerUntouched : Bool := true
 
 def RState.err (s : RState) (c : ErrClass) (f : String) : RErr :=
   { wrapped := true, line := s.lineNum, record := s.recordName, cls := c, field := f }
@@ -291,7 +293,9 @@ def rstep (m : Model) (e : Enc) (s : RState) (line : Bytes) : Except (RState × 
     match (m.layout .fileHeader).parseRec id m.now (dec line) s.header with
     | .panic => .error (s, s.err .field "<panic>")
     | .done v =>
-      let s := { s with header := v }
+      -- Parse assigns fields only when its length guard passes; then the header differs from the template
+      let touched := runeCount (dec line) == 80
+      let s := { s with header := v, headerUntouched := s.headerUntouched && !touched }
       match m.validateK .fileHeader v with
       | (none, v') => .ok { s with header := v' }
       | (some f, _) => .error (s, s.err .field f)
@@ -308,23 +312,26 @@ def rstep (m : Model) (e : Enc) (s : RState) (line : Bytes) : Except (RState × 
     if (match s.curBundle with | some b => b.header.isSome | none => false) then .error (s, s.err .file "")
     else do
       let v ← pv s .bundleHeader (dec line) ((m.layout .bundleHeader).new m.now)
-      pure { s with curBundle := some { header := some v, control := some ((m.layout .bundleControl).new m.now) } }
+      if s.cur.header.isNone then .error (s, s.err .file "")
+      else pure { s with curBundle := some { header := some v, control := some ((m.layout .bundleControl).new m.now) } }
   | some .checkDetail =>
     let s := { s with recordName := "CheckDetail" }
     match s.curBundle with
     | none => .error (s, s.err .file "")
     | some b => do
       let v ← pv s .checkDetail (dec line) {}
-      if b.header.isSome then pure { s with curBundle := some { b with checks := b.checks ++ [{ detail := v }] } }
-      else pure s
+      if b.header.isNone then .error (s, s.err .file "")
+      else if !b.returns.isEmpty then .error (s, s.err .file "")
+      else pure { s with curBundle := some { b with checks := b.checks ++ [{ detail := v }] } }
   | some .returnDetail =>
     let s := { s with recordName := "ReturnDetail" }
     match s.curBundle with
     | none => .error (s, s.err .file "")
     | some b => do
       let v ← pv s .returnDetail (dec line) {}
-      if b.header.isSome then pure { s with curBundle := some { b with returns := b.returns ++ [{ detail := v }] } }
-      else pure s
+      if b.header.isNone then .error (s, s.err .file "")
+      else if !b.checks.isEmpty then .error (s, s.err .file "")
+      else pure { s with curBundle := some { b with returns := b.returns ++ [{ detail := v }] } }
   | some .cdAddA =>
     let s := { s with recordName := "CheckDetailAddendumA" }
     if !hasChecks s then .error (s, s.err .file "CheckDetailAddendumA")
@@ -439,6 +446,8 @@ def rstep (m : Model) (e : Enc) (s : RState) (line : Bytes) : Except (RState × 
     | none => .error (s, { wrapped := false, line := s.lineNum, record := s.recordName, cls := .plain, field := "missing CashLetterHeader" })
     | some _ =>
       let s := { s with recordName := "CashLetterControl" }
+      if (match s.curBundle with | some b => b.header.isSome | none => false) then .error (s, s.err .file "")
+      else
       match s.cur.control with
       | none => .error (s, s.err .field "<panic>")
       | some c0 => do
@@ -452,6 +461,7 @@ def rstep (m : Model) (e : Enc) (s : RState) (line : Bytes) : Except (RState × 
   | some .fileControl =>
     let s := { s with recordName := "FileControl" }
     if !(s.control.s "recordType").isEmpty then .error (s, s.err .file "")
+    else if s.cur.header.isSome then .error (s, s.err .file "")
     else
       match (m.layout .fileControl).parseRec id m.now (dec line) s.control with
       | .panic => .error (s, s.err .field "<panic>")
@@ -488,8 +498,12 @@ def readFile (m : Model) (e : Enc) (input : Bytes) : File Vals × Option RErr :=
   | none =>
     if !clean then
       (s.file, some { wrapped := true, line := s.lineNum, record := s.recordName, cls := .file, field := "LineNumber" })
+    else if s.headerUntouched then
+      (s.file, some { wrapped := true, line := s.lineNum, record := "FileHeader", cls := .file, field := "" })
     else if (s.control.s "recordType").isEmpty then
       (s.file, some { wrapped := true, line := s.lineNum, record := "FileControl", cls := .file, field := "" })
+    else if s.cur.header.isSome then
+      (s.file, some { wrapped := true, line := s.lineNum, record := "CashLetterControl", cls := .file, field := "" })
     else (s.file, none)
 
 end Icl
